@@ -280,7 +280,7 @@ func (c *kvCore) enterShared(call string, own *int32) {
 	c.rec.count(call)
 }
 
-// Commands: "P|key|value" (put). Everything else is a no-op command.
+// Commands: "P|key|value" or "P|key|value|padding" (put). Everything else is a no-op command.
 func (c *kvCore) applyOne(index uint64, cmd []byte) sm.Result {
 	if index <= c.lastIndex {
 		c.rec.Violate("update-index-not-increasing", "%s %s inc %d: Update index %d after %d", c.kind, c.name, c.inc, index, c.lastIndex)
@@ -289,12 +289,24 @@ func (c *kvCore) applyOne(index uint64, cmd []byte) sm.Result {
 		c.rec.Violate("ondisk-update-at-or-below-open-index", "ondisk %s: Update index %d, Open returned %d", c.name, index, c.openIdx)
 	}
 	c.lastIndex = index
+	parts := strings.SplitN(string(cmd), "|", 4)
+	logical := string(cmd)
+	if len(parts) == 4 && parts[0] == "P" {
+		// the padding (compressible filler that makes entry compression and the in-memory
+		// log size limit matter) is not part of the logical command, but it must arrive intact
+		logical = strings.Join(parts[:3], "|")
+		for i := 0; i < len(parts[3]); i++ {
+			if parts[3][i] != "abcdefgh"[i%8] {
+				c.rec.Violate("command-payload-altered", "%s %s: Update index %d delivered a command whose payload differs from what was proposed (byte %d of the padding of %q)", c.kind, c.name, index, i, logical)
+				break
+			}
+		}
+	}
 	c.rec.mu.Lock()
-	c.rec.Streams[c.name] = append(c.rec.Streams[c.name], Delivered{Inc: c.inc, Index: index, Cmd: string(cmd)})
+	c.rec.Streams[c.name] = append(c.rec.Streams[c.name], Delivered{Inc: c.inc, Index: index, Cmd: logical})
 	c.rec.mu.Unlock()
-	parts := strings.SplitN(string(cmd), "|", 3)
 	c.mu.Lock()
-	if len(parts) == 3 && parts[0] == "P" {
+	if len(parts) >= 3 && parts[0] == "P" {
 		c.data[parts[1]] = parts[2]
 		if c.disk != nil {
 			c.disk.mu.Lock()
